@@ -211,6 +211,32 @@ Definition table := N -> option N.
 Definition tables := nat -> nat -> table.
 Definition fixed (t : table) : tables := fun _ _ => t.
 
+(* A table entry (LifecycleItem = struct Lifecycle of src/lifecycle/mod.rs) as its public interface shows it.
+   `get_lc_start_time` reads the FIELD `start_time` of the entry found under the message's lifecycle id and
+   nothing else — in particular none of the derived times:
+     resume_start_time() = start of the resumed lifecycle + 1 us when the entry is a resume (is_resume()) whose
+                           start_time is <= the start recorded for the lifecycle it resumes, else start_time;
+     resume_time()       = start_time + min timestamp - max(0, start_time - start of the resumed lifecycle);
+     end_time()          = start_time + max timestamp (last reception time when that is 0);
+     suspend_duration()  = max(0, start_time - start of the resumed lifecycle).
+   [table_by f] is the table the sort would see if it read the entries through [f]; the model uses
+   [table_of_items = table_by li_start]. *)
+Record lc_item := mkitem {
+  li_start : N;          (* start_time *)
+  li_is_resume : bool;   (* is_resume() *)
+  li_resume_start : N;   (* resume_start_time() *)
+  li_resume_time : N;    (* resume_time() *)
+  li_end : N;            (* end_time() *)
+  li_suspend : N;        (* suspend_duration() *)
+  li_nr : N              (* nr_msgs *)
+}.
+Definition item_table := N -> option lc_item.
+Definition table_by (f : lc_item -> N) (t : item_table) : table :=
+  fun id => match t id with Some it => Some (f it) | None => None end.
+Definition table_of_items : item_table -> table := table_by li_start.
+(* an entry that is not a resume, without messages carrying a timestamp: all times coincide *)
+Definition plain_item (s : N) : lc_item := mkitem s false s s s 0 1.
+
 (* s_pos: messages consumed so far; s_np: messages delivered so far *)
 Record st := mkst { s_cache : cache; s_delays : delays; s_thr : N; s_heap : heap; s_np : nat; s_pos : nat }.
 
